@@ -435,7 +435,8 @@ def search_cpython(ctx: Ctx, real: Real) -> SearchResult:
 			report(key or '?', rec['source'], detail, f'corpus/{fn}')
 	n = ctx.scale(700, 8000)
 	for i in range(n):
-		opts = G.GenOpts(escape_hazards=0.02 if i % 4 == 0 else 0.0)
+		# escape hazards (even backslash runs / an escaped quote before the closing quote) are part of the subset since efe3cdf
+		opts = G.GenOpts(escape_hazards=0.06 if i % 2 == 0 else 0.0)
 		prog = G.gen_program(rng, opts, 1 + (i * 5) % ctx.scale(14, 30))
 		lay = G.gen_layout(rng, prog)
 		src = G.render(prog, lay)
@@ -483,7 +484,7 @@ def search_layout(ctx: Ctx, real: Real) -> SearchResult:
 	keys: set[str] = set()
 	n = ctx.scale(350, 3000)
 	for i in range(n):
-		opts = G.GenOpts()
+		opts = G.GenOpts(escape_hazards=0.05 if i % 3 == 0 else 0.0)
 		prog = G.gen_program(rng, opts, 1 + (i * 3) % ctx.scale(14, 30))
 		lay = G.gen_layout(rng, prog)
 		src = G.render(prog, lay)
